@@ -117,7 +117,7 @@ pub fn handle(op: &str, req: &Value) -> Option<Value> {
             let v = req["value"].as_u64().unwrap_or(0);
             let v = if name == "_from" || name == "_to" { node_of(v) } else { v };
             let mut props = HashMap::new();
-            props.insert(name, graph_engine::PropertyValue::Int(v as i64));
+            props.insert(name, if req["value"].is_null() { graph_engine::PropertyValue::Null } else { graph_engine::PropertyValue::Int(v as i64) });
             match g.create_edge(f, t, "NEW", props, d) {
                 Ok(id) => {
                     match g.get_edge(id) { Ok(e) if e.from == f && e.to == t && e.directed == d => {}, other => bad.push(format!("created edge ({f} -> {t}, directed {d}) reads back as {other:?}")) }
@@ -125,6 +125,24 @@ pub fn handle(op: &str, req: &Value) -> Option<Value> {
                 },
                 Err(e) => format!("Err({e})"),
             }
+        },
+        "update_edge_with_property" => {
+            let id = edge_of(a1);
+            let name = req["property"].as_str().unwrap_or("plain").to_string();
+            let v = req["value"].as_u64().unwrap_or(0);
+            let v = if name == "_from" || name == "_to" { node_of(v) } else { v };
+            let mut props = HashMap::new();
+            props.insert(name, if req["value"].is_null() { graph_engine::PropertyValue::Null } else { graph_engine::PropertyValue::Int(v as i64) });
+            let r = g.update_edge(id, props);
+            let after: Vec<(u64, u64, u64, bool)> = g.all_edges().iter().map(|e| (e.id, e.from, e.to, e.directed)).collect();
+            let (mut b2, mut a2_) = (before.clone(), after);
+            b2.sort();
+            a2_.sort();
+            if b2 != a2_ { bad.push(format!("update_edge changed the structure: {b2:?} -> {a2_:?}")); }
+            for (eid, ..) in &before {
+                if g.get_edge(*eid).is_err() { bad.push(format!("edge {eid} is no longer readable")); }
+            }
+            match r { Ok(()) => "Ok".to_string(), Err(e) => format!("Err({e}) ") }.replace("Err", "Refused")
         },
         "create_edge" => {
             let (f, t, d) = (node_of(a1), node_of(a2), req["new_directed"].as_bool().unwrap_or(true));
